@@ -569,15 +569,25 @@ class Runner:
             return np.array(p.grad_energy(np.array(op['pts'], dtype=float)), dtype=float)
         if kind == 'defaults':
             return np.array([p.default_timestep, p.default_tolerance], dtype=float)
+        if kind == 'interp':
+            arc = np.array(p.arccoord, dtype=float)
+            w = op['where']
+            a = {'knots': arc.copy(), 'mid': np.concatenate([arc[:1], (arc[1:] + arc[:-1]) / 2, arc[-1:]]),
+                 'below': np.array([-0.25, arc[-1] / 2]), 'above': np.array([arc[-1] / 2, arc[-1] * 1.25 + 0.5])}[w]
+            q = p.interpolate_path(a)
+            return {'coord': np.array(q.coord, dtype=float), 'type': type(q).__name__, 'arc': a,
+                    'same': bool(q.energyfxn is p.energyfxn and q.gradientfxn is p.gradientfxn
+                                 and q.integratorfxn is p.integratorfxn and dict(q.gradientkwargs) == dict(p.gradientkwargs))}
         if kind in ('step', 'relax'):
+            hkw = {} if op.get('hdefault') else {'timestep': op['h']}
             if kind == 'step':
-                kw = {'timestep': op['h']}
+                kw = dict(hkw)
                 if op.get('climb') is not None:
                     kw['climbindex'] = op['climb']
                 q = p.step(**kw)
             else:
-                q = p.relax(relaxsteps=op['r'], climbsteps=op['c'], timestep=op['h'], tolerance=op.get('tol', 0.0),
-                            verbose=False, **({} if op.get('cp') is None else {'climbpoints': op['cp']}))
+                q = p.relax(relaxsteps=op['r'], climbsteps=op['c'], tolerance=op.get('tol', 0.0),
+                            verbose=False, **hkw, **({} if op.get('cp') is None else {'climbpoints': op['cp']}))
             res = {'coord': np.array(q.coord, dtype=float), 'type': type(q).__name__,
                    'same_energyfxn': q.energyfxn is p.energyfxn, 'same_gradientfxn': q.gradientfxn is p.gradientfxn,
                    'same_integratorfxn': q.integratorfxn is p.integratorfxn,
@@ -650,17 +660,19 @@ def _gen_sequence(rng, nops, tier_big=False):
             ops.append({'op': rng.choice(['energy_at', 'grad_at']), 'pts': pts})
         elif r < 0.83:
             ops.append({'op': 'defaults'})
+        elif r < 0.86 and n >= 2:
+            ops.append({'op': 'interp', 'where': rng.choice(['knots', 'knots', 'mid', 'mid', 'below', 'above'])})
         elif r < 0.92:
             climb = None
             if n >= 3 and rng.random() < 0.5:
                 k = rng.randrange(1, n - 1)
                 climb = rng.choice([k, [k]]) if n < 5 or rng.random() < 0.7 else sorted({k, rng.randrange(1, n - 1)})
             ops.append({'op': 'step', 'hrel': rng.choice([0.5, 0.25, 0.125, 0.3]), 'climb': climb,
-                        'adopt': rng.random() < 0.5})
+                        'adopt': rng.random() < 0.5, 'hdefault': rng.random() < 0.15})
         else:
             ops.append({'op': 'relax', 'r': rng.randint(0, 2), 'c': rng.choice([0, 1, 1, 2]), 'hrel': rng.choice([0.25, 0.125]),
                         'tolrel': rng.choice([0.0, 0.5, 0.9, 1.5, 4.0]), 'cp': rng.choice([None, None, None, 1, 2, 3]),
-                        'adopt': rng.random() < 0.5})
+                        'adopt': rng.random() < 0.5, 'hdefault': rng.random() < 0.15})
         ops.append({'op': 'obs'})
     return ops
 
@@ -679,6 +691,8 @@ def _resolve(op, sh):
         op = dict(op)
         h = op['hrel'] * _stable_step(sh)
         op['h'] = 2.0 ** math.floor(math.log2(h)) if op['hrel'] != 0.3 else float(f'{h:.2g}')
+        if op.get('hdefault'):      # timestep not given: the path's default 0.05 min(0.2, 1/N)
+            op['h'] = float(Fraction(1, 20) * min(Fraction(1, 5), Fraction(1, max(sh.n, 1))))
         if op['op'] == 'relax' and 'tol' not in op:
             op['tol'] = 0.0
             if op.get('tolrel') and (sh.n == 2 or op['tolrel'] in (0.5, 0.9)):
@@ -1007,10 +1021,54 @@ def _run_sequence(ctx, ops, model_kind, label):
                 report('path:defaults', f'default_timestep/default_tolerance for {sh.n} images: {res}, expected '
                        f'{[_fl(w) for w in want]}')
             continue
+        if kind == 'interp':
+            _check_interp(ctx, report, model_kind, sh, op, res, raised)
+            continue
         if kind in ('step', 'relax'):
             _check_step(ctx, report, model, model_kind, runner, idx, before, op, res, raised)
             continue
     return done
+
+
+def _check_interp(ctx, report, model_kind, sh, op, res, raised):
+    """interpolate_path: arc coordinates outside [0, length] are refused; at the path's own arc coordinates the images come
+    back (the spline interpolates its knots) with all functions and settings; between them the not-a-knot cubic spline
+    through the images (scipy evaluated independently, oracle side)."""
+    np = _np()
+    w = op['where']
+    ctx.stats.case(f'{model_kind}:path-interpolate', (repr(sh.spec()), w), nontrivial=sh.n >= 2)
+    if sh.n < 2 or _degenerate(sh.coord):
+        return
+    if w in ('below', 'above'):
+        if not (raised and res[1] == 'ValueError'):
+            report('path:interpolate:range', f'interpolate_path with an arc coordinate {w} the range [0, length] '
+                   f'{"raised " + res[1] if raised else "returned a path"} instead of raising ValueError (coord {sh.coord})')
+        return
+    if raised:
+        report('path:interpolate-raises', f'interpolate_path({w}) raised {res[1]}: {res[2]} (coord {sh.coord})')
+        return
+    d = sh.poly.dim
+    scale = max(1.0, max(abs(v) for r in sh.coord for v in r))
+    if res['type'] != 'ISMPath' or not res['same']:
+        report('path:interpolate:settings', f'the path returned by interpolate_path does not carry the functions and settings of the path')
+        return
+    arc, _ = _geometry(sh.coord)
+    seg = [b - a for a, b in zip(arc, arc[1:])]
+    amp = (max(seg) / min(seg)) ** 2
+    if w == 'knots':
+        want = np.array(sh.coord, dtype=float)
+        tol = 1e3 * EPS * scale * amp
+    else:
+        if model_kind != 'oracle' or amp > 1e4:
+            return
+        from scipy.interpolate import CubicSpline
+        a = np.array(arc)
+        want = CubicSpline(a, np.array(sh.coord, dtype=float))(np.concatenate([a[:1], (a[1:] + a[:-1]) / 2, a[-1:]]))
+        tol = 1e4 * EPS * scale * amp
+    got = res['coord']
+    if got.shape != want.shape or not (np.abs(got - want) <= tol).all():
+        report('path:interpolate', f'interpolate_path at {"the arc coordinates of the images" if w == "knots" else "the segment midpoints"} '
+               f'{res["arc"].tolist()} of coord {sh.coord} returned {got.tolist()}, expected {want.tolist()}')
 
 
 def _brief(op):
@@ -1028,12 +1086,14 @@ def _brief(op):
         return f"gradientkwargs <- {op['kw']}"
     if k == 'set_integ':
         return f"integratorfxn = {op.get('name')}"
+    if k == 'interp':
+        return f"interpolate_path({op['where']})"
     if k == 'bad_set':
         return f"bad {op['attr']}"
     if k == 'step':
-        return f"step(h={op['h']}, climb={op.get('climb')}{', adopt' if op.get('adopt') else ''})"
+        return f"step(h={'default ' if op.get('hdefault') else ''}{op['h']}, climb={op.get('climb')}{', adopt' if op.get('adopt') else ''})"
     if k == 'relax':
-        return (f"relax({op['r']},{op['c']},h={op['h']},tol={op.get('tol', 0.0)}" + (f",climbpoints={op['cp']}" if op.get('cp') is not None else '')
+        return (f"relax({op['r']},{op['c']},h={'default ' if op.get('hdefault') else ''}{op['h']},tol={op.get('tol', 0.0)}" + (f",climbpoints={op['cp']}" if op.get('cp') is not None else '')
                 + f"{', adopt' if op.get('adopt') else ''})")
     return k
 
